@@ -22,6 +22,9 @@ RULE = ("valid stream: every task's valid (reference, estimate) generator incl. 
         "single-fault corruption per documented fault class and entry point: must raise ValueError "
         "(InvalidChordException for labels), never return a score, never another exception type")
 ASSUMPTIONS = ["fault classes are those a validator names or raises for (DESIGN §5 C14 scope rule)",
+               "the translator part `validators` and its run-time library lean/MirModel/PyVal.lean (NumPy operations on "
+               "shape + row-major data, no broadcasting between arrays, exception messages not evaluated, warnings skipped) "
+               "are assumed and exercised against the real validators and against NumPy by suite validators.gen_validators",
                "NaN values and non-array containers are not fault classes of this property"]
 UNPROVED = ["totality of the metric bodies on valid input is a theorem for the validators (Props/C14.lean) and for the "
             "models of melody, multipitch, transcription + transcription_velocity, the segment labelling metrics, "
